@@ -95,20 +95,17 @@ Qed.
 Definition holds (d : disk) (a : Z) (bs : bytes) : Prop :=
   forall i, (i < length bs)%nat -> dget d (a + Z.of_nat i) = Some (nth i bs 0).
 
-Lemma known_some l : forall bs, known l = Some bs <-> l = map Some bs.
+Lemma known_map bs : known (map Some bs) = Some bs.
+Proof. induction bs as [|b r IH]; simpl; auto. now rewrite IH. Qed.
+Lemma known_inv l : forall bs, known l = Some bs -> l = map Some bs.
 Proof.
-  induction l as [|x r IH]; intros bs; simpl.
-  - split; intros H; [inversion H; reflexivity|]. destruct bs; [reflexivity|discriminate].
-  - destruct x as [b|].
-    + destruct (known r) as [t|] eqn:E.
-      * split; intros H.
-        -- inversion H; subst. simpl. f_equal. now apply IH.
-        -- destruct bs as [|b' t']; [discriminate|]. simpl in H. inversion H; subst.
-           f_equal. f_equal. assert (Some t = Some t') by (apply IH; auto). congruence.
-      * split; intros H; [discriminate|]. destruct bs as [|b' t']; [discriminate|]. simpl in H. inversion H; subst.
-        assert (None = Some t') by (rewrite <- E; apply IH; auto). discriminate.
-    + split; intros H; [discriminate|]. destruct bs; discriminate.
+  induction l as [|x r IH]; intros bs H; simpl in H.
+  - inversion H. reflexivity.
+  - destruct x as [b|]; [|discriminate]. destruct (known r) as [t|] eqn:E; [|discriminate].
+    inversion H; subst. simpl. f_equal. now apply IH.
 Qed.
+Lemma known_some l bs : known l = Some bs <-> l = map Some bs.
+Proof. split; [apply known_inv|intros ->; apply known_map]. Qed.
 
 Lemma holds_drd d a bs : holds d a bs <-> drd d a (length bs) = map Some bs.
 Proof.
@@ -221,22 +218,26 @@ Lemma conv_rt fmt n v : fmt = 76 \/ fmt = 66 \/ fmt = 67 -> 0 <= v < 256 ^ Z.of_
   conv_int fmt (conv_int_enc fmt n v) = Ok v.
 Proof.
   intros F Hv. unfold conv_int, conv_int_enc, conv_mode.
-  destruct F as [->|[->|->]]; simpl; rewrite ?rev_involutive, le_rt; auto.
+  destruct F as [ -> | [ -> | -> ] ]; simpl; rewrite ?rev_involutive, le_rt; auto.
 Qed.
 
 Lemma dp_enc_len fa p : fa_good fa -> length (dp_enc fa p) = 12%nat.
 Proof. intros [O _]. unfold dp_enc. rewrite O, app_length, !conv_enc_len. reflexivity. Qed.
 
+Lemma firstn_app_len {A} (a b : list A) n : length a = n -> firstn n (a ++ b) = a.
+Proof. intros <-. rewrite firstn_app, Nat.sub_diag, firstn_O, app_nil_r. apply firstn_all. Qed.
+Lemma skipn_app_len {A} (a b : list A) n : length a = n -> skipn n (a ++ b) = b.
+Proof. intros <-. rewrite skipn_app, Nat.sub_diag, skipn_all. reflexivity. Qed.
+
 Lemma dp_rt fa p : fa_good fa -> 0 <= fst p < 2 ^ 64 -> 0 <= snd p < 2 ^ 32 -> dp_dec fa (dp_enc fa p) = Ok p.
 Proof.
   intros [O F] Hb Ho. unfold dp_dec, dp_enc. rewrite O. unfold sub.
-  simpl skipn at 1. rewrite firstn_app, conv_enc_len, Nat.sub_diag, firstn_O, app_nil_r.
+  change (skipn 0 ?l) with l.
+  rewrite firstn_app_len by apply conv_enc_len.
+  rewrite conv_rt by (auto; change (256 ^ Z.of_nat 8) with (2 ^ 64); lia). cbn [bind].
+  rewrite skipn_app_len by apply conv_enc_len.
   rewrite firstn_all2 by (rewrite conv_enc_len; lia).
-  rewrite conv_rt by (auto; change (256 ^ Z.of_nat 8) with (2 ^ 64); lia). simpl bind.
-  rewrite skipn_app, conv_enc_len, Nat.sub_diag. simpl skipn at 2.
-  rewrite skipn_all2 by (rewrite conv_enc_len; lia). simpl app.
-  rewrite firstn_all2 by (rewrite conv_enc_len; lia).
-  rewrite conv_rt by (auto; change (256 ^ Z.of_nat 4) with (2 ^ 32); lia). simpl. now destruct p.
+  rewrite conv_rt by (auto; change (256 ^ Z.of_nat 4) with (2 ^ 32); lia). cbn [bind]. now destruct p.
 Qed.
 
 Lemma gp_dp_rt fa p : fa_good fa -> gp p -> dp_dec fa (dp_enc fa p) = Ok p.
@@ -244,4 +245,116 @@ Proof.
   intros G [Hb Ho]. apply dp_rt; auto.
   - split; [lia|]. eapply Z.lt_trans; [apply Hb|]. reflexivity.
   - unfold DBS in Ho. split; [lia|]. eapply Z.lt_trans; [apply Ho|]. reflexivity.
+Qed.
+
+(* ------------------------------------------------------------------ holds: more *)
+Lemma holds_dput_other d a bs a' l : 0 <= a' -> holds d a bs -> a + lenZ bs <= a' \/ a' + lenZ l <= a -> holds (dput d a' l) a bs.
+Proof. intros Ha H Hd. eapply holds_same_out; [exact H|apply same_out_dput; auto|]. lia. Qed.
+
+Lemma holds_app d a x y : holds d a (x ++ y) <-> holds d a x /\ holds d (a + lenZ x) y.
+Proof.
+  unfold lenZ. split.
+  - intros H. split.
+    + intros i Hi. rewrite H by (rewrite app_length; lia). now rewrite app_nth1.
+    + intros i Hi. specialize (H (length x + i)%nat). rewrite app_length in H.
+      rewrite app_nth2 in H by lia. replace (length x + i - length x)%nat with i in H by lia. rewrite <- H by lia. f_equal. lia.
+  - intros [H1 H2] i Hi. rewrite app_length in Hi. destruct (Nat.lt_ge_cases i (length x)).
+    + rewrite app_nth1 by auto. auto.
+    + rewrite app_nth2 by auto. specialize (H2 (i - length x)%nat). rewrite <- H2 by lia. f_equal. lia.
+Qed.
+
+Lemma nth_firstn_lt {A} (l : list A) n i d0 : (i < n)%nat -> nth i (firstn n l) d0 = nth i l d0.
+Proof.
+  revert l i. induction n as [|n IH]; intros l i H; [lia|].
+  destruct l as [|x r]; [destruct i; reflexivity|]. destruct i as [|i]; simpl; auto. apply IH. lia.
+Qed.
+Lemma holds_firstn d a bs n : holds d a bs -> holds d a (firstn n bs).
+Proof.
+  intros H i Hi. rewrite firstn_length in Hi. rewrite H by lia. f_equal. symmetry. apply nth_firstn_lt. lia.
+Qed.
+
+Lemma holds_unique d a x y : length x = length y -> holds d a x -> holds d a y -> x = y.
+Proof.
+  intros L Hx Hy. apply nth_ext with (d := 0) (d' := 0); auto.
+  intros i Hi. specialize (Hx i Hi). rewrite Hy in Hx by lia. congruence.
+Qed.
+
+Lemma holds_nil d a : holds d a [].
+Proof. intros i Hi. simpl in Hi. lia. Qed.
+
+Lemma repeat_nth {A} (x d : A) n i : (i < n)%nat -> nth i (repeat x n) d = x.
+Proof. revert i. induction n as [|n IH]; intros [|i] H; simpl; auto; try lia. apply IH. lia. Qed.
+
+Lemma lenZ_zeros n : 0 <= n -> lenZ (zeros n) = n.
+Proof. intros H. unfold lenZ, zeros. rewrite repeat_length. lia. Qed.
+Lemma lenZ_firstn_le {A} (l : list A) n : lenZ (firstn n l) <= Z.of_nat n.
+Proof. unfold lenZ. rewrite firstn_length. lia. Qed.
+
+Lemma tag_len4 : length tag_DaTa = 4%nat /\ length tag_dEnD = 4%nat /\ length tag_DCtb = 4%nat /\ length tag_dcTE = 4%nat.
+Proof. repeat split. Qed.
+
+Lemma tag4_refl_DaTa : tag4 tag_DaTa tag_DaTa = true. Proof. reflexivity. Qed.
+Lemma tag4_refl_dEnD : tag4 tag_dEnD tag_dEnD = true. Proof. reflexivity. Qed.
+Lemma tag4_refl_DCtb : tag4 tag_DCtb tag_DCtb = true. Proof. reflexivity. Qed.
+Lemma tag4_refl_dcTE : tag4 tag_dcTE tag_dcTE = true. Proof. reflexivity. Qed.
+Lemma tag4_DaTa_DCtb : tag4 tag_DaTa tag_DCtb = false. Proof. reflexivity. Qed.
+Lemma tag4_DCtb_DaTa : tag4 tag_DCtb tag_DaTa = false. Proof. reflexivity. Qed.
+
+Section Proofs.
+Variable cf : cfg.
+Variable fa : fattr.
+Hypothesis Hfa : fa_good fa.
+Hypothesis Hsigned : c_signed cf = true.
+Hypothesis Hwall : c_fix_wall cf = true.
+Hypothesis Hwblock : c_fix_wblock cf = true.
+Hypothesis Hzero : c_fix_zero cf = true.
+Hypothesis Hrblock : c_fix_rblock cf = true.
+
+(* ------------------------------------------------------------------ reading tags and pointers *)
+Lemma rd_unfold d p n : rd d p n = drd d (addr p) (Z.to_nat n).
+Proof. reflexivity. Qed.
+
+Lemma read_tag_holds d p t : length t = 4%nat -> holds d (addr p) t -> read_tag d p = Ok t.
+Proof.
+  intros L H. unfold read_tag, rd. change (Z.to_nat TAG_SIZE) with 4%nat. rewrite <- L.
+  now rewrite holds_known.
+Qed.
+
+Lemma read_ptr_holds d p q : gp q -> holds d (addr p) (dp_enc fa q) -> read_ptr fa d p = Ok q.
+Proof.
+  intros G H. unfold read_ptr, rd. change (Z.to_nat DPS) with 12%nat. rewrite <- (dp_enc_len fa q Hfa).
+  rewrite holds_known by auto. now apply gp_dp_rt.
+Qed.
+
+Lemma read_chunk_length_holds d p t e : length t = 4%nat -> gp e ->
+  holds d (addr p) t -> holds d (addr p + 4) (dp_enc fa e) -> read_chunk_length fa d p = Ok (t, e).
+Proof.
+  intros L G Ht He. unfold read_chunk_length, rd. change (Z.to_nat HDR) with (length (t ++ dp_enc fa e)).
+  2:{ rewrite app_length, L, dp_enc_len by auto. reflexivity. }
+  rewrite holds_known.
+  - replace (skipn 4 (t ++ dp_enc fa e)) with (dp_enc fa e) by (rewrite <- L, skipn_app_len; auto).
+    rewrite gp_dp_rt by auto. cbn [bind]. rewrite <- L, firstn_app_len; auto.
+  - apply holds_app. split; auto. unfold lenZ. rewrite L. exact He.
+Qed.
+
+(* ------------------------------------------------------------------ chunks *)
+Definition cstart (c : ptr * ptr) : Z := addr (fst c).
+Definition cend (c : ptr * ptr) : Z := addr (snd c).
+
+Lemma csize_addr c : csize c = cend c - cstart c - HDR.
+Proof. destruct c as [[sb so] [eb eo]]. unfold csize, cend, cstart, addr, HDR, DBS; simpl. ring. Qed.
+
+(* a well-formed data chunk: both pointers normalised, positive size, both tags and its own end pointer in place *)
+Definition chunk_at (d : disk) (c : ptr * ptr) : Prop :=
+  gp (fst c) /\ gp (snd c) /\ 0 < csize c /\
+  holds d (cstart c) tag_DaTa /\ holds d (cstart c + 4) (dp_enc fa (snd c)) /\ holds d (cend c) tag_dEnD.
+
+Lemma chunk_at_same_out d d' c lo hi :
+  chunk_at d c -> same_out d d' lo hi -> cend c + 4 <= lo \/ hi <= cstart c -> chunk_at d' c.
+Proof.
+  intros (G1 & G2 & S & T1 & P & T2) SO Hd. rewrite csize_addr in S. unfold HDR in S.
+  repeat split; auto; try (rewrite csize_addr; unfold HDR; lia).
+  - eapply holds_same_out; eauto. unfold lenZ; simpl. lia.
+  - eapply holds_same_out; eauto. unfold lenZ. rewrite dp_enc_len by auto. simpl. lia.
+  - eapply holds_same_out; eauto. unfold lenZ; simpl. lia.
 Qed.
